@@ -97,6 +97,8 @@ def pick_unit(rng, case, prefer=None):
         if kind == "blocklisted-both":
             ids = [u for u in ids if u in e.unit_blocklist and len(e.states) > 1
                    and float(e.cur.loc[e.cur["geographic_unit_fips"] == u, "percent_expected_vote"].iloc[0]) >= e.threshold]
+        if kind in ("partial", "zero-percent"):  # the property is about units that are (and stay) below the threshold
+            ids = [u for u in ids if float(e.cur.loc[e.cur["geographic_unit_fips"] == u, "percent_expected_vote"].iloc[0]) < e.threshold]
         if ids:
             return kind, rng.choice(ids)
     return None, None
